@@ -105,9 +105,44 @@ def type_domains(repo: Repo) -> Dict[str, List[ClassInfo]]:
     # AliasTarget: FieldType minus Definition subclasses (Alias.validate_type)
     al = m.cls("Alias", "_ast.py")
     vt = m.lookup(al, "validate_type")
-    if vt is None or "isinstance(self.type, Definition)" not in src_of(vt.node):
-        raise Inconclusive("Alias.validate_type no longer tests isinstance(self.type, Definition)")
-    out["AliasTarget"] = [c for c in out["FieldType"] if not m.is_subclass(c, D)]
+    if vt is None:
+        raise Inconclusive("Alias.validate_type vanished")
+    # which classes of self.type pass the validator: decided class by class on its paths
+    from .flows import compiler_flow
+    from .normal import V as _V
+    from .normal import show as _show
+
+    fl = compiler_flow(repo, "Alias", "_ast.py", pure=("from_token",))
+    vpaths = fl.run(vt.node, {vt.node.args.args[0].arg: _V("self")})
+    targets: List[ClassInfo] = []
+    for c in out["FieldType"]:
+        verdict: Optional[bool] = None  # passes?
+        for p_ in vpaths:
+            feasible_ = True
+            for k_, t_ in p_.guards:
+                if k_[0] == "isinstance" and _show(k_[1]) == "self.type":
+                    ks = [x for x in m.all_classes() if x.name in k_[2] and x.rel.endswith("_ast.py")]
+                    if len(ks) != len(k_[2]):
+                        raise Inconclusive(f"Alias.validate_type tests self.type against {k_[2]}")
+                    if any(m.is_subclass(c, x) for x in ks) != t_:
+                        feasible_ = False
+                elif k_[0] == "truthy" and "_is_missing" in _show(k_[1]):
+                    if t_:
+                        feasible_ = False  # the missing-type sentinel is not a schema type
+                else:
+                    raise Inconclusive(f"Alias.validate_type: condition {_show(k_[1]) if hasattr(k_[1], 'terms') else k_} is not a class test on self.type")
+            if not feasible_:
+                continue
+            passes = p_.done != "raise"
+            if verdict is not None and verdict != passes:
+                raise Inconclusive("Alias.validate_type: a class both passes and is rejected")
+            verdict = passes
+        if verdict:
+            targets.append(c)
+    if not targets or len(targets) == len(out["FieldType"]) and any(m.is_subclass(c, D) for c in targets):
+        # nothing is rejected any more: named types can be aliased (a domain change the dispatch rules must see)
+        pass
+    out["AliasTarget"] = targets
 
     const = m.cls("Constant", "_ast.py")
     out["ConstantKind"] = sorted([c for c in pool if m.is_subclass(c, const) and c is not const], key=lambda c: c.name)
@@ -335,6 +370,37 @@ def _auto_discharge(cg: CG, s: RaiseSite) -> Optional[str]:
         idx = n.slice
         if s.exc in ("KeyError", "LookupError") and known_key_in(n.value, idx, facts):
             return "dominating `key in mapping` test"
+        # D[k] with D a local dict literal and k the result of a helper whose every return value is a key of D (or None, excluded by a guard)
+        if s.exc in ("KeyError", "LookupError") and isinstance(n.value, ast.Name) and isinstance(idx, ast.Name):
+            binds_d = [a for a in ast.walk(fn) if isinstance(a, (ast.Assign, ast.AnnAssign)) and a.value is not None and any(isinstance(t_, ast.Name) and t_.id == n.value.id for t_ in (a.targets if isinstance(a, ast.Assign) else [a.target]))]
+            binds_k = [a for a in ast.walk(fn) if isinstance(a, (ast.Assign, ast.AnnAssign)) and a.value is not None and any(isinstance(t_, ast.Name) and t_.id == idx.id for t_ in (a.targets if isinstance(a, ast.Assign) else [a.target]))]
+            if len(binds_d) == 1 and isinstance(binds_d[0].value, ast.Dict) and all(isinstance(k_, ast.Constant) for k_ in binds_d[0].value.keys) and len(binds_k) == 1 and isinstance(binds_k[0].value, ast.Call) and isinstance(binds_k[0].value.func, ast.Name):
+                keys = {k_.value for k_ in binds_d[0].value.keys}
+                mod_ = cg.model.mods[s.unit.fn.rel]
+                helper = mod_.funcs.get(binds_k[0].value.func.id)
+                not_none = any((src_of(t).replace(" ", "") == f"{idx.id}isnotNone" and truth) or (src_of(t).replace(" ", "") == f"{idx.id}isNone" and not truth) for t, truth in facts)
+                if helper is not None:
+                    try:
+                        from .pyflow import PyFlow, single_atom as _sa2, str_of as _so2
+
+                        fl_ = PyFlow(funcs={k_: v_.node for k_, v_ in mod_.funcs.items()}, consts=dict(mod_.assigns), havoc_on=())
+                        vals_ = set()
+                        closed = True
+                        for p_ in fl_.run(helper.node):
+                            if p_.done != "return" or p_.ret is None:
+                                closed = closed and p_.done == "raise"
+                                continue
+                            a_ = _sa2(p_.ret)
+                            if a_ is not None and a_[0] == "none":
+                                vals_.add(None)
+                            elif _so2(p_.ret) is not None:
+                                vals_.add(_so2(p_.ret))
+                            else:
+                                closed = False
+                        if closed and (vals_ - {None}) <= keys and (None not in vals_ or not_none):
+                            return f"the key is a result of {helper.name}(), whose results {sorted(x for x in vals_ if x is not None)} are all keys of the literal dict" + (" (None excluded by the guard)" if None in vals_ else "")
+                    except Inconclusive:
+                        pass
         if isinstance(idx, (ast.Constant, ast.UnaryOp)):
             from .guards import _const_int
 
@@ -674,6 +740,14 @@ def a1(repo: Repo) -> RuleResult:
                 if r:
                     status = r
             k = _site_key(s)
+            if status is None and k not in beliefs and s.kind == "raise":
+                # the only `raise <this class>` of the function and the only belief about one: the same site,
+                # however its message is put together today
+                prefix = f"A1|{s.file}|{s.unit.fn.qual}|{s.exc}|"
+                cands = [bk for bk in beliefs if bk.startswith(prefix) and bk[len(prefix):].lstrip().startswith((s.exc + "(", s.exc + ".from_token("))]
+                same = [n_ for n_ in ast.walk(s.unit.fn.node) if isinstance(n_, ast.Raise) and n_.exc is not None and src_of(n_.exc.func if isinstance(n_.exc, ast.Call) else n_.exc).split(".")[0] == s.exc]
+                if len(cands) == 1 and len(same) == 1:
+                    k = cands[0]
             if status is None and k in beliefs:
                 b = beliefs[k]
                 need = b.get("requires")
